@@ -40,6 +40,11 @@ func (round *round4) Start() *tss.Error {
 	}
 
 	// compute the multiplicative inverse thelta mod q
+	if new(big.Int).Mod(thetaInverse, round.Params().EC().Params().N).Sign() == 0 {
+		// the theta_j are not covered by any proof: a peer that speaks last can make them sum to zero,
+		// which has no inverse (ModInverse would return nil and round 5 would dereference it)
+		return round.WrapError(errors.New("the sum of the received theta values is zero"))
+	}
 	thetaInverse = modN.ModInverse(thetaInverse)
 	i := round.PartyID().Index
 	ContextI := append(round.temp.ssid, new(big.Int).SetUint64(uint64(i)).Bytes()...)
